@@ -1025,9 +1025,6 @@ Lemma through_runs (m : M unit) ts a b c d tid0 ts' a' h c' d' sl n :
 Proof.
   intros R Hs Hg. unfold through, st5 in *. eapply runs_with_reg_some; [reflexivity|].
   rbind; [exact R|]. unfold reg_text, node_of_reg.
-  rbind.
-  { rbind.
-    { rbind; [apply runs_get_reg; reflexivity|]. destruct h as [ht hp]. eapply runs_node_of; [exact Hs|exact Hg]. }
-    rdone. }
+  Show. rbind; [rbind; [apply runs_get_reg; reflexivity|]; destruct h as [ht hp]; eapply runs_node_of; [exact Hs|exact Hg]|].
   rdone.
 Qed.
